@@ -3,7 +3,7 @@
 # confirms a sub-agent's change (demo passes without / fails with it) in its scratch worktree, runs our checks against it in /repo,
 # undoes it, and files it under /verif/seeded/<PROP>-<k>/
 P=$1; K=$2; shift 2
-OUT=/tmp/mutwt/${P}_out; WT=/tmp/mutwt/$P
+OUT=/tmp/mutwt/${P}_out${OUTSFX}; WT=/tmp/mutwt/$P; KOFF=${KOFF:-0}
 [ -f $OUT/patch_$K.diff ] || { echo "no patch $OUT/patch_$K.diff"; exit 1; }
 git -C $WT checkout -q -- . 
 cp $OUT/demo_$K.py $WT/_demo_$K.py
@@ -23,7 +23,7 @@ for Q in $P "$@"; do
 $LINE"
 done
 rm -rf $SC
-D=/verif/seeded/$P-$K; mkdir -p $D
+D=/verif/seeded/$P-$((K+KOFF)); mkdir -p $D
 cp $OUT/patch_$K.diff $D/patch.diff; cp $OUT/demo_$K.py $D/demo.py
 python3 - "$OUT/meta_$K.json" "$D/meta.json" "$RC0" "$RC1" "$RES" "$P" <<'PY'
 import json,sys
